@@ -33,6 +33,8 @@ type jNode struct {
 	num   *Seg   // number given by an opaque segment
 	lit   string // number given literally
 	esc   bool   // string contained escapes in literal text (content not reconstructed)
+	digs  []*Term // number written digit by digit (octet terms, most significant first)
+	neg   bool    // ... preceded by a literal minus sign
 }
 
 type jParser struct {
@@ -87,6 +89,8 @@ func (p *jParser) value() *jNode {
 	}
 	if seg != nil {
 		switch seg.op {
+		case "bytes":
+			return p.digits()
 		case "dec":
 			p.pos++
 			return &jNode{kind: "number", num: seg}
@@ -187,6 +191,11 @@ func (p *jParser) value() *jNode {
 			sb.WriteByte(p.items[p.pos].ch)
 			p.pos++
 		}
+		if p.pos < len(p.items) && p.items[p.pos].seg != nil && p.items[p.pos].seg.op == "bytes" {
+			// literal digits followed by computed ones
+			p.pos = start
+			return p.digits()
+		}
 		if !validJSONNumber(sb.String()) {
 			p.pos = start
 			return p.fail("malformed number %q", sb.String())
@@ -199,6 +208,46 @@ func (p *jParser) value() *jNode {
 		}
 	}
 	return p.fail("unexpected character %q where a value is expected", ch)
+}
+
+// digits parses an integer written octet by octet (computed digits, possibly mixed with
+// literal ones): every octet must be a digit and there is no leading zero.
+func (p *jParser) digits() *jNode {
+	n := &jNode{kind: "number"}
+	if c, s, ok := p.peek(); ok && s == nil && c == '-' {
+		n.neg = true
+		p.pos++
+	}
+	for p.pos < len(p.items) {
+		it := p.items[p.pos]
+		if it.seg == nil {
+			if it.ch < '0' || it.ch > '9' {
+				break
+			}
+			n.digs = append(n.digs, bvConst(uint64(it.ch), 8))
+			p.pos++
+			continue
+		}
+		if it.seg.op != "bytes" {
+			break
+		}
+		bs, ok := snapBytes(it.seg.args[0].(SliceSnap))
+		if !ok {
+			return p.fail("a number is written from octets of symbolic length")
+		}
+		n.digs = append(n.digs, bs...)
+		p.pos++
+	}
+	if len(n.digs) == 0 || len(n.digs) > 20 {
+		return p.fail("a number of %d digits", len(n.digs))
+	}
+	for _, d := range n.digs {
+		p.cond = tAnd(p.cond, tAnd(bvCmp("bvuge", d, bvConst('0', 8)), bvCmp("bvule", d, bvConst('9', 8))))
+	}
+	if len(n.digs) > 1 {
+		p.cond = tAnd(p.cond, tNot(tEq(n.digs[0], bvConst('0', 8))))
+	}
+	return n
 }
 
 func (p *jParser) matchWord(w string) bool {
@@ -489,6 +538,43 @@ func init() {
 				s = formatUint(want.v, 10)
 			}
 			setRes(st, res, boolConst(n.lit == s))
+			return true
+		}
+		if n.lit != "" {
+			// a literal integer against a symbolic expectation
+			var u uint64
+			var i int64
+			if _, err := fmt.Sscanf(n.lit, "%d", &u); err == nil && formatUint(u, 10) == n.lit {
+				setRes(st, res, tEq(want, u64(int64(u))))
+				return true
+			}
+			if _, err := fmt.Sscanf(n.lit, "%d", &i); err == nil && formatInt(i, 10) == n.lit && signed.v == 1 {
+				setRes(st, res, tEq(want, u64(i)))
+				return true
+			}
+		}
+		if len(n.digs) > 0 {
+			// value of the digit string in 72 bits (20 digits fit)
+			const W = 72
+			val := bvConst(0, W)
+			for _, d := range n.digs {
+				dv := bvZext(bvBin("bvsub", d, bvConst('0', 8)), W)
+				val = bvBin("bvadd", bvBin("bvmul", val, bvConst(10, W)), dv)
+			}
+			var eq *Term
+			if n.neg {
+				mag := bvBin("bvsub", u64(0), want)
+				eq = tAnd(tEq(val, bvZext(mag, W)), bvCmp("bvslt", want, u64(0)))
+				if signed.v != 1 {
+					eq = tFalse
+				}
+			} else {
+				eq = tEq(val, bvZext(want, W))
+				if signed.v == 1 {
+					eq = tAnd(eq, bvCmp("bvsge", want, u64(0)))
+				}
+			}
+			setRes(st, res, eq)
 			return true
 		}
 		setRes(st, res, tFalse)
